@@ -11,7 +11,8 @@ if os.path.exists(WT): sh(f'git -C /repo worktree remove --force {WT}')
 rc,out=sh(f'git -C /repo worktree add -q --detach {WT} HEAD'); assert rc==0,out
 res={}
 for d in sorted(glob.glob(sys.argv[1] if len(sys.argv)>1 else '/tmp/seed-C*/[ab]')):
-    sid=d.split('/')[2].replace('seed-','')+d[-1]
+    import re
+    sid=re.search(r'C\d\d',d).group(0)+d[-1]
     patch=os.path.join(d,'ported.diff') if os.path.exists(os.path.join(d,'ported.diff')) else os.path.join(d,'patch.diff')
     r={'patch':os.path.basename(patch)}
     sh('git checkout -q -- . && git clean -fdq',WT)
